@@ -56,6 +56,7 @@ pub fn dump_comp(comp: &mut CompoundFile<Cursor<Vec<u8>>>) -> String {
 }
 
 pub fn open_dump(bytes: Vec<u8>, strict: bool) -> String {
+    crate::util::progress_image(if strict { "open strict" } else { "open permissive" }, &bytes);
     let (tx, rx) = mpsc::channel();
     std::thread::spawn(move || {
         let r = catch(|| {
